@@ -63,6 +63,31 @@ CLAIMED = {
         "note": "Trusted: the intended first-truthy short-circuit semantics as read from AddonManager; explicit drop after "
                 "take treated as legal.",
     },
+    "C19": {
+        "text": "Real HippoClient session/region/protocol/circuit and resend task against a stub simulator: reliable and "
+                "unreliable tagged packets retransmitted and duplicated/reordered/dropped by the network, acks for the "
+                "client's reliable sends appended or as PacketAck, late, repeated, bogus or never, clock running through "
+                "resend intervals. Checked per delivery: an ack goes out for every reliable delivery; each subscriber "
+                "(session-level and region-level, named and wildcard, plus the StartPingCheck responder) sees a reliable "
+                "packet once and an unreliable one per delivery; send futures flip exactly in the event that processed "
+                "their ack, fail with TimeoutError after exactly the transmission budget; first-transmission IDs strictly "
+                "increase and retransmissions reuse their ID.",
+        "design_ref": "DESIGN.md §4 C19",
+        "note": "Trusted: stub simulator framing; login/Seed/EQ HTTP bypassed (session built from login data as login() "
+                "does). Dedupe window (1000 IDs) never exceeded.",
+    },
+    "C20": {
+        "text": "Transfer clause only. Xfer (turbo on/off) and Transfer downloads served by a stub simulator in "
+                "scheduler-chosen chunk orders with duplicates, loss at the source, late retransmissions, foreign-transfer "
+                "chunks and silences around the 5 s timeout; Xfer uploads against a stub that requests the file and "
+                "confirms chunks under lossy confirms. Oracle: done() becomes true in the instant the last missing "
+                "chunk of 0..EOF is delivered - not earlier (end-marked chunk first), not later - and reassembly equals "
+                "the payload; >5 s silence fails the transfer; a reported upload success implies the stub holds exactly "
+                "the payload. The codec clause (inventory/animation/mesh round trips) is a pure function: not decided.",
+        "design_ref": "DESIGN.md §4 C20, §5",
+        "note": "Trusted: the stub's chunk framing (SendXferPacket / TransferPacket layouts written from the template). "
+                "Codec clause of C20 not applicable to this technique.",
+    },
 }
 
 NOT_APPLICABLE = {
